@@ -9,7 +9,7 @@ func VH_C18_updown() {
 	t := []byte(">t0\nACG\n>t1\nGCG\n>t2\nACA\n")
 	qtype, ttype := "fasta", "fasta"
 	distall := 3
-	kind := vChoice("kind", 12)
+	kind := vChoice("kind", 16)
 	list := false
 	switch kind {
 	case 0: // more than one record in --reference
@@ -53,10 +53,31 @@ func VH_C18_updown() {
 	case 11: // target CSV whose header lacks a column
 		ttype = "csv"
 		t = []byte("query,SNPs,ambiguities,SNPcount\nt0,,,0\n")
+	case 12, 13: // a CSV row (first, middle or last) whose SNP field is not what updown list writes
+		rows := []string{"r0,A1C,,1,0", "r1,A1C|G3T,,2,0", "r2,,,0,0"}
+		r := vChoice("badrow", 3)
+		rows[r] = "r" + vItoa(r) + "," + []string{"G3xT", "AoneC", "A1C|GxT"}[vChoice("badtoken", 3)] + ",,1,0"
+		txt := []byte("query,SNPs,ambiguities,SNPcount,ambcount\n" + rows[0] + "\n" + rows[1] + "\n" + rows[2] + "\n")
+		if kind == 12 {
+			ttype, t = "csv", txt
+		} else {
+			qtype, q = "csv", txt
+		}
+	case 14, 15: // a CSV row whose ambiguity ranges or ambiguity count are not numbers
+		rows := []string{"r0,A1C,,1,0", "r1,A1C,2-3,1,2", "r2,,,0,0"}
+		r := vChoice("badrow", 3)
+		rows[r] = "r" + vItoa(r) + ",A1C," + []string{"2-x,1,2", "x,1,1", "2-3,1,two"}[vChoice("badfield", 3)]
+		txt := []byte("query,SNPs,ambiguities,SNPcount,ambcount\n" + rows[0] + "\n" + rows[1] + "\n" + rows[2] + "\n")
+		if kind == 14 {
+			ttype, t = "csv", txt
+		} else {
+			qtype, q = "csv", txt
+		}
 	case 9: // query CSV with wrong header
 		qtype = "csv"
 		q = []byte("query,SNPs\nq0,\n")
 	}
+	vRaceDetect()
 	vSchedExplore(vParam("DEV"))
 	w := &vCapture{}
 	var err error
